@@ -182,7 +182,41 @@ def run_regress(rec, seed, shard, nshards, tier):
     prop(F4_CASE, rec)
 
 
+# ---------------------------------------------------------------- scale: one pre-terminal of many guesses
+def prop_large(case, rec):
+    """One group of `n` equally probable values (what the count-1 tail of a real Digits/6.txt or Alpha/6.txt is): the
+    pre-terminals built on it expand to exactly the product, through the process stdout, with the reported count."""
+    from .. import guesser
+    from .c03 import word
+    n = case['n']
+    digits = ['%06d' % (i * 7 + 3) for i in range(n)]
+    m = {'encoding': 'utf-8', 'uuid': 'c04-large',
+         'vars': {'D6': [[0.5, ['000001']], [0.5 / n, digits]], 'A6': [[0.5, ['monkey']], [0.5 / (n // 4), [word(i + 5, 6) for i in range(n // 4)]]],
+                  'C6': [[0.5, ['LLLLLL']], [0.25, ['ULLLLL', 'UUUUUU']]], 'D2': [[0.75, ['1 ']], [0.25, ['22']]]},
+         'base': [['D6', 0.5], ['A6D2', 0.5]], 'm_levels': []}
+    rdir = os.path.join(_dir(), 'L')
+    rsmodel.write_ruleset(rdir, m)
+    g = guard(case, guesser.load, rdir)
+    vs, base = rsmodel.effective(m, False, False)
+    for pt in ((('D6', 1),), (('A6', 1), ('C6', 1), ('D2', 0))):
+        want = rsmodel.expand(vs, pt)
+        lines, cnt = guard(case, guesser.capture_guesses, g, list(pt))
+        rec.case({'pt': [list(x) for x in pt], 'guesses': len(want), 'characters': sum(len(w) + 1 for w in want)}, True,
+                 ['preterminal_of_%d_guesses' % len(want)], key=['large', n, list(pt)])
+        if cnt != len(lines):
+            raise Violation('count', f'pre-terminal {pt} ({len(want)} guesses): reported {cnt} guesses, wrote {len(lines)} lines', case)
+        if Counter(lines) != Counter(want):
+            raise Violation('expansion', f'pre-terminal {pt}: {len(lines)} lines written, the product of its groups has {len(want)}; missing '
+                            f'{list((Counter(want) - Counter(lines)).items())[:4]}, extra {list((Counter(lines) - Counter(want)).items())[:4]}', case)
+
+
+def run_large(rec, seed, shard, nshards, tier):
+    for n in {'quick': [9001, 80021], 'thorough': [9001, 80021, 300007]}[tier]:
+        prop_large({'n': n}, rec)
+
+
 PARTS = [
+    Part('large_preterminal', run_large, prop_large, {'quick': 1, 'thorough': 1}),
     Part('regression_tied_levels', run_regress, prop, {'quick': 1, 'thorough': 1}),
     Part('every_preterminal', run_main, prop, {'quick': 8, 'thorough': 16}),
 ]
